@@ -126,7 +126,7 @@ def plan(tier):
     add("stream-arcs", "arcs", entry="stream", S_=2, kinds="r")
     if tier == "thorough":
         add("hook-state-arcs", "state,arcs", S_=2)
-        add("hook-arcs-arcs", "arcs,arcs", S_=3)
+        add("hook-arcs-s4", "arcs", S_=4, kinds="r")
         add("hook-linear-state-linear", "linear,state,linear")
         add("stream-other", "other,state", entry="stream")
     return out
